@@ -47,7 +47,21 @@ def main():
         print("implementation harness does not build:\n" + st["log"][-2000:])
     proof = core.proof_status(pid, st)
     if st["impl_ok"] and st["model_ok"]:
-        res = props.CHECKS[pid](tier, seed, st)
+        try:
+            res = props.CHECKS[pid](tier, seed, st)
+            changed = common.changed_functions()
+            if changed and tier == "quick":
+                # the hand-modelled source differs from the pinned fingerprints: more rounds of the same streams
+                for extra in (seed + 1000003, seed + 2000006):
+                    res.merge(props.CHECKS[pid](tier, extra, st))
+                res.notes.append("source functions differ from canon/fingerprints.json (%s): ran 3 rounds" % ", ".join(changed))
+        except Exception:
+            import traceback
+            tb = traceback.format_exc()
+            sys.stderr.write(tb)
+            res = core.Result(pid)
+            res.notes.append("exploration aborted by an internal error of the harness:\n" + tb[-3000:])
+            res.corr_break(stream="harness", case="-", why="exploration aborted: " + tb.strip().splitlines()[-1])
     else:
         res = core.Result(pid)
         res.notes.append("model or implementation harness did not build; no exploration: " + st["log"][-1500:])
